@@ -17,7 +17,7 @@ for d in sorted(glob.glob('/verif/seeded/C*')):
         'verdict': row['verdict'] if row else 'not run',
         'assertions': row['labels'] if row else [],
     }
-    for rf in ('round2_first_sight.json', 'round3_first_sight.json', 'round4_first_sight.json', 'round5_first_sight.json', 'round6_first_sight.json', 'round7_first_sight.json'):
+    for rf in ('round2_first_sight.json', 'round3_first_sight.json', 'round4_first_sight.json', 'round5_first_sight.json', 'round6_first_sight.json', 'round7_first_sight.json', 'round8_first_sight.json'):
         r2 = json.load(open('/verif/seeded/' + rf))
         if name in r2['first_sight']:
             m['verif']['first_sight'] = r2['first_sight'][name]
